@@ -85,7 +85,7 @@ func c11TwoProcess(run *Run, dir string) {
 		var c net.Conn
 		var err error
 		for w := 0; w < 150; w++ {
-			if c, err = net.DialTimeout("tcp", addr, 100*time.Millisecond); err == nil {
+			if c, err = dialLocal(addr, 100*time.Millisecond); err == nil {
 				break
 			}
 			time.Sleep(40 * time.Millisecond)
